@@ -575,6 +575,22 @@ impl HeapSize for TVal {
     }
 }
 
+thread_local! {
+    static EXPECTED_PANICS: std::cell::Cell<u32> = const { std::cell::Cell::new(0) };
+}
+
+/// Runs `f` with panics *expected*: whatever hook was installed before ours
+/// (libFuzzer's aborts the process) is not consulted for panics raised inside.
+pub fn expecting_panics<R>(f: impl FnOnce() -> R) -> R {
+    EXPECTED_PANICS.with(|c| c.set(c.get() + 1));
+    let r = std::panic::catch_unwind(std::panic::AssertUnwindSafe(f));
+    EXPECTED_PANICS.with(|c| c.set(c.get() - 1));
+    match r {
+        Ok(r) => r,
+        Err(p) => std::panic::resume_unwind(p),
+    }
+}
+
 /// Silences the default panic message for injected panics (there are
 /// millions of them); everything else is printed as usual unless quiet.
 pub fn install_panic_hook(quiet_all: bool) {
@@ -591,6 +607,9 @@ pub fn install_panic_hook(quiet_all: bool) {
         };
         // panics raised by the harness' own code are never silenced: they make a
         // run inconclusive and have to be seen
+        if EXPECTED_PANICS.with(|c| c.get()) > 0 {
+            return;
+        }
         let own = info.location().map(|l| l.file().starts_with("src/")).unwrap_or(false);
         if msg.contains(INJECTED) || (quiet_all && !own && std::env::var_os("VERIF_LOUD").is_none()) {
             return;
